@@ -2272,6 +2272,10 @@ def scalarise_records(func, fields_of):
             fields = fields_of(ast.unparse(n.value.func))
             if fields:
                 cands.setdefault(n.targets[0].id, []).append((n, fields))
+        elif isinstance(n, ast.Assign) and len(n.targets) == 1 and isinstance(n.targets[0], ast.Name) and isinstance(n.value, ast.Tuple) \
+                and getattr(n.value, "_nt_fields", None) and len(n.value._nt_fields) == len(n.value.elts):
+            # the constructor call was already written as its tagged tuple display (namedtuple_rows, applied when the module is parsed)
+            cands.setdefault(n.targets[0].id, []).append((n, list(n.value._nt_fields)))
     if not cands:
         return func
     parent_attr = {}
@@ -2292,6 +2296,9 @@ def scalarise_records(func, fields_of):
     for name, lst in cands.items():
         for asg, fields in lst:
             c = asg.value
+            if isinstance(c, ast.Tuple):
+                plan[id(asg)] = (name, list(zip(fields, c.elts)))
+                continue
             if any(isinstance(a, ast.Starred) for a in c.args) or any(k.arg is None or k.arg not in fields for k in c.keywords) or len(c.args) > len(fields):
                 plan = None
                 break
@@ -2319,6 +2326,142 @@ def scalarise_records(func, fields_of):
     if plan:
         func = Tr().visit(func)
         ast.fix_missing_locations(func)
+    return func
+
+
+# ------------------------------------------------------------------------------------------ local helper objects
+
+def scalarise_objects(func, class_of, max_objects: int = 4):
+    """Scalar replacement of a LOCAL HELPER OBJECT.  `obj = Cls(a, b)` (class_of(<callee expression>) -> the ClassDef of a plain class of
+    the package, or None) whose every other use in `func` is an attribute access `obj.field` or a method call `obj.meth(..)` never
+    leaves the function: its constructor and its methods are put back in place (inline_stmts / inline_expr with the receiver renamed
+    to `obj`) and every field `obj.f` becomes the local `obj__f`.  A class that only carries a few lists and the statements that fill
+    them is then read as the straight-line code it abbreviates.  Refused (the function is returned unchanged) when the class has bases,
+    decorators, properties / descriptors / dunder hooks other than __init__, class-level state that a method reads through self, when a
+    method cannot be inlined where it is called, or when the object is handed on (argument, return value, alias, container)."""
+    def plain_class(cd):
+        if cd is None or cd.bases or cd.keywords or cd.decorator_list:
+            return None
+        meths, cattrs = {}, set()
+        for st in cd.body:
+            if isinstance(st, ast.FunctionDef):
+                if st.decorator_list or (st.name.startswith("__") and st.name != "__init__"):
+                    return None
+                meths[st.name] = st
+            elif isinstance(st, ast.Expr) and isinstance(st.value, ast.Constant):
+                continue
+            elif isinstance(st, (ast.Assign, ast.AnnAssign)):
+                for t in (st.targets if isinstance(st, ast.Assign) else [st.target]):
+                    if isinstance(t, ast.Name) and (isinstance(st, ast.Assign) or st.value is not None):
+                        cattrs.add(t.id)
+                    elif not isinstance(t, ast.Name):
+                        return None
+            elif isinstance(st, ast.Pass):
+                continue
+            else:
+                return None
+        init = meths.get("__init__")
+        if init is None or _simple_callee(init) != "stmts" or not init.args.args:
+            return None
+        if cattrs:
+            return None             # class-level state: `self.X` may mean the class attribute
+        # the receiver is only ever used as `self.<name>` inside the methods
+        for fn in meths.values():
+            if not fn.args.args:
+                return None
+            me = fn.args.args[0].arg
+            par = {}
+            for n in ast.walk(fn):
+                if isinstance(n, ast.Attribute) and isinstance(n.value, ast.Name):
+                    par[id(n.value)] = n
+            for n in ast.walk(fn):
+                if isinstance(n, ast.Name) and n.id == me and (id(n) not in par or not isinstance(n.ctx, ast.Load)):
+                    return None
+        return meths
+
+    done = 0
+    for _ in range(max_objects):
+        # one candidate at a time: `obj = Cls(..)` bound exactly once by a plain assignment
+        binds = {}
+        for n in ast.walk(func):
+            if isinstance(n, ast.Name) and isinstance(n.ctx, (ast.Store, ast.Del)):
+                binds[n.id] = binds.get(n.id, 0) + 1
+            elif isinstance(n, ast.arg):
+                binds[n.arg] = binds.get(n.arg, 0) + 2
+        cand = None
+        for n in ast.walk(func):
+            if isinstance(n, ast.Assign) and len(n.targets) == 1 and isinstance(n.targets[0], ast.Name) and binds.get(n.targets[0].id) == 1 \
+                    and isinstance(n.value, ast.Call) and isinstance(n.value.func, (ast.Name, ast.Attribute)):
+                meths = plain_class(class_of(n.value.func))
+                if meths is not None and not getattr(n, "_sa_obj_refused", False):
+                    cand = (n, n.targets[0].id, meths)
+                    break
+        if cand is None:
+            break
+        asg, obj, meths = cand
+        asg._sa_obj_refused = True          # (not tried again if the attempt below is abandoned)
+        work = copy.deepcopy(func)
+        wasg = next(n for n in ast.walk(work) if isinstance(n, ast.Assign) and getattr(n, "_sa_obj_refused", False) and len(n.targets) == 1
+                    and isinstance(n.targets[0], ast.Name) and n.targets[0].id == obj)
+        recv = ast.Name(id=obj, ctx=ast.Load())
+
+        def resolve(call, _meths=meths, _obj=obj):
+            f_ = call.func
+            if isinstance(f_, ast.Attribute) and isinstance(f_.value, ast.Name) and f_.value.id == _obj and f_.attr in _meths and f_.attr != "__init__":
+                return _meths[f_.attr], ast.Name(id=_obj, ctx=ast.Load())
+            return None
+        res = inline_stmts(meths["__init__"], wasg.value, recv)
+        if res is None or res[1] is not None:
+            continue
+        init_body = res[0]
+        for b in init_body:
+            ast.copy_location(b, wasg)
+            ast.fix_missing_locations(b)
+
+        class PutInit(ast.NodeTransformer):
+            def visit_Assign(self, n):
+                return init_body if n is wasg else n
+        work = PutInit().visit(work)
+
+        # single-expression methods anywhere in an expression, then whole-statement / hoistable calls of straight-line methods
+        class ExprCalls(ast.NodeTransformer):
+            def visit_Call(self, n):
+                self.generic_visit(n)
+                r = resolve(n)
+                if r is not None and _simple_callee(r[0]) == "expr":
+                    e = inline_expr(r[0], n, r[1])
+                    if e is not None:
+                        return ast.copy_location(e, n)
+                return n
+        for _k in range(3):
+            work = ExprCalls().visit(work)
+            work = inline_stmt_calls(work, resolve)
+        ast.fix_missing_locations(work)
+        # what is left of `obj` must be plain field accesses
+        par = {}
+        for n in ast.walk(work):
+            if isinstance(n, ast.Attribute) and isinstance(n.value, ast.Name):
+                par[id(n.value)] = n
+        ok = True
+        for n in ast.walk(work):
+            if isinstance(n, ast.Name) and n.id == obj:
+                a = par.get(id(n))
+                if a is None or not isinstance(n.ctx, ast.Load) or a.attr in meths:
+                    ok = False
+                    break
+        if not ok:
+            continue
+        taken = {n.id for n in ast.walk(work) if isinstance(n, ast.Name)}
+
+        class Fields(ast.NodeTransformer):
+            def visit_Attribute(self, n):
+                if isinstance(n.value, ast.Name) and n.value.id == obj:
+                    return ast.copy_location(ast.Name(id=f"{obj}__{n.attr}", ctx=n.ctx), n)
+                return self.generic_visit(n)
+        if any(f"{obj}__{a.attr}" in taken for a in par.values() if isinstance(a.value, ast.Name) and a.value.id == obj):
+            continue
+        func = ast.fix_missing_locations(Fields().visit(work))
+        done += 1
     return func
 
 
@@ -2602,6 +2745,73 @@ def flatten_keyed_tables(func):
 
 # ----------------------------------------------------------------------------------------------------------- copy coalescing
 
+def join_piece_tables(func):
+    """Change of representation put back: a table of texts kept as a table of PIECE LISTS that are joined once at the end
+
+        T = [[c] for _ in range(N)]   ...   T[i].append(t)   ...   X = ["".join(ps) for ps in T]
+
+    is the table of strings `T = [c] * N` with `T[i] += t` (text concatenation), X being T itself.  Applied only when T is bound once
+    at the top level, EVERY other use of T is a whole-statement `T[<index>].append(<one piece>)` before the join or the join itself (a
+    top-level statement, the empty separator), and T is not used after the join."""
+    nbind = {}
+    for n in ast.walk(func):
+        if isinstance(n, ast.Name) and isinstance(n.ctx, (ast.Store, ast.Del)):
+            nbind[n.id] = nbind.get(n.id, 0) + 1
+        elif isinstance(n, ast.arg):
+            nbind[n.arg] = nbind.get(n.arg, 0) + 2
+    for ii, init in enumerate(list(func.body)):
+        if not (isinstance(init, ast.Assign) and len(init.targets) == 1 and isinstance(init.targets[0], ast.Name) and nbind.get(init.targets[0].id) == 1
+                and isinstance(init.value, ast.ListComp) and len(init.value.generators) == 1 and not init.value.generators[0].ifs
+                and isinstance(init.value.elt, ast.List) and len(init.value.elt.elts) == 1 and not isinstance(init.value.elt.elts[0], ast.Starred)):
+            continue
+        T = init.targets[0].id
+        g = init.value.generators[0]
+        if not (isinstance(g.iter, ast.Call) and isinstance(g.iter.func, ast.Name) and g.iter.func.id == "range" and len(g.iter.args) == 1 and not g.iter.keywords
+                and isinstance(g.target, ast.Name) and g.target.id not in _loaded(init.value.elt) and _pure(init.value.elt.elts[0]) and _pure(g.iter.args[0])):
+            continue
+        # the join
+        ji = None
+        for k in range(ii + 1, len(func.body)):
+            st = func.body[k]
+            if isinstance(st, ast.Assign) and len(st.targets) == 1 and isinstance(st.targets[0], ast.Name) and isinstance(st.value, ast.ListComp) \
+                    and len(st.value.generators) == 1 and not st.value.generators[0].ifs and isinstance(st.value.generators[0].iter, ast.Name) \
+                    and st.value.generators[0].iter.id == T and isinstance(st.value.generators[0].target, ast.Name):
+                e = st.value.elt
+                if isinstance(e, ast.Call) and isinstance(e.func, ast.Attribute) and e.func.attr == "join" and isinstance(e.func.value, ast.Constant) \
+                        and e.func.value.value == "" and len(e.args) == 1 and not e.keywords and isinstance(e.args[0], ast.Name) \
+                        and e.args[0].id == st.value.generators[0].target.id:
+                    ji = k
+                    break
+        if ji is None:
+            continue
+        uses = [n for b in func.body for n in ast.walk(b) if isinstance(n, ast.Name) and n.id == T]
+        appends = []
+        for b in func.body[ii + 1:ji]:
+            for n in ast.walk(b):
+                if isinstance(n, ast.Expr) and isinstance(n.value, ast.Call) and isinstance(n.value.func, ast.Attribute) and n.value.func.attr == "append" \
+                        and isinstance(n.value.func.value, ast.Subscript) and isinstance(n.value.func.value.value, ast.Name) and n.value.func.value.value.id == T \
+                        and len(n.value.args) == 1 and not n.value.keywords and not isinstance(n.value.args[0], ast.Starred) \
+                        and T not in _loaded(n.value.func.value.slice) and T not in _loaded(n.value.args[0]):
+                    appends.append(n)
+        if len(uses) != len(appends) + 2:
+            continue
+        ids = {id(n): n for n in appends}
+
+        class Tr(ast.NodeTransformer):
+            def visit_Expr(self, n):
+                if id(n) in ids:
+                    sub = n.value.func.value
+                    sub.ctx = ast.Store()
+                    return ast.copy_location(ast.AugAssign(target=sub, op=ast.Add(), value=n.value.args[0]), n)
+                return n
+        for k in range(ii + 1, ji):
+            func.body[k] = Tr().visit(func.body[k])
+        init.value = ast.copy_location(ast.BinOp(left=ast.List(elts=[init.value.elt.elts[0]], ctx=ast.Load()), op=ast.Mult(), right=g.iter.args[0]), init.value)
+        func.body[ji].value = ast.copy_location(ast.Name(id=T, ctx=ast.Load()), func.body[ji].value)
+        ast.fix_missing_locations(func)
+    return func
+
+
 def coalesce_copies(func):
     """Copy coalescing at the top level of a function: `A = x` / `A, B = x, y` where the local x is not used afterwards and the name A
     does not occur before, is the same program with x spelled A from the start (the copy statement disappears).  This is what is
@@ -2636,6 +2846,29 @@ def coalesce_copies(func):
             del func.body[i]
             changed = True
             break
+    # ... and an ALIAS `A = x` at the top level, where each of the two names is bound exactly once in the whole function (x earlier, A
+    # here), gives the one object a second name: the statements that follow are the same program with A spelled x
+    nbind = {}
+    for n in ast.walk(func):
+        if isinstance(n, ast.Name) and isinstance(n.ctx, (ast.Store, ast.Del)):
+            nbind[n.id] = nbind.get(n.id, 0) + 1
+        elif isinstance(n, ast.arg):
+            nbind[n.arg] = nbind.get(n.arg, 0) + 1
+        elif isinstance(n, (ast.FunctionDef, ast.ClassDef, ast.AsyncFunctionDef)) and n is not func:
+            nbind[n.name] = nbind.get(n.name, 0) + 2
+        elif isinstance(n, (ast.Global, ast.Nonlocal)):
+            return func
+    i = 0
+    while i < len(func.body):
+        st = func.body[i]
+        if isinstance(st, ast.Assign) and len(st.targets) == 1 and isinstance(st.targets[0], ast.Name) and isinstance(st.value, ast.Name) \
+                and st.targets[0].id != st.value.id and nbind.get(st.targets[0].id) == 1 and nbind.get(st.value.id) == 1 and st.value.id not in params \
+                and any(isinstance(n, ast.Name) and n.id == st.value.id and isinstance(n.ctx, ast.Store) for b in func.body[:i] for n in ast.walk(b)):
+            ren = {st.targets[0].id: st.value.id}
+            func.body[i + 1:] = [_Rename(ren).visit(b) for b in func.body[i + 1:]]
+            del func.body[i]
+            continue
+        i += 1
     return func
 
 
